@@ -92,6 +92,11 @@ func classifyRace(rep string) (a, b string, ok bool) {
 	}
 	first := func(st []string) (string, bool) {
 		for _, f := range st {
+			if f == "github.com/ja7ad/otp/internal/verifrt.(*Reader).Read" {
+				// the simulated random source fills the buffer its caller handed to
+				// crypto/rand: the access belongs to the library frame further down
+				continue
+			}
 			if strings.HasPrefix(f, "github.com/ja7ad/otp/internal/verif") {
 				return f, false
 			}
